@@ -417,6 +417,10 @@ ocp.set_der(v, a)
 
         for i in v_indices:
             v_expressions[self.symbol_map[i][0]][self.symbol_map[i][1]] = pool[i]
+        # Entries of a vector-valued symbol that the expression does not depend on: zeros of matching width
+        for i in active_symbols:
+            width = [e.shape[1] for e in v_expressions[i] if not isinstance(e, int)][0]
+            v_expressions[i] = [DM.zeros(1, width) if isinstance(e, int) else e for e in v_expressions[i]]
 
         v_active_symbols = [self.v_symbols[e] for e in active_symbols]
         v_active_expressions = [ca.vcat(v_expressions[i]) for i in active_symbols]
